@@ -5,19 +5,6 @@ From GV Require Import Base.Prelude Base.PyStr Model.Bins Model.DB Model.Parser 
   Proofs.C02Proofs Proofs.C04Proofs Proofs.C05Proofs Proofs.C16Proofs Proofs.C03Proofs Proofs.C03End Proofs.C03Ids.
 Open Scope Z_scope.
 
-Definition ordinary (f : row) : Prop := str_eqb (r_ftype f) GENE = false /\ str_eqb (r_ftype f) TRANSCRIPT = false.
-
-(* the keys the lines get: <featuretype>_<n>, counted per featuretype *)
-Fixpoint assign (fs : list row) (a : counters) : list (row * str) :=
-  match fs with
-  | [] => []
-  | f :: r => (f, fst (auto_incr (r_ftype f) a)) :: assign r (snd (auto_incr (r_ftype f) a))
-  end.
-Fixpoint last_auto (fs : list row) (a : counters) : counters :=
-  match fs with [] => a | f :: r => last_auto r (snd (auto_incr (r_ftype f) a)) end.
-
-Definition place (p : row * str) : row := set_bin (set_id (snd p) (fst p)).
-
 Lemma assign_fst : forall fs a, map fst (assign fs a) = fs.
 Proof. induction fs as [|f fs IH]; intros a; [reflexivity|]. cbn [assign map fst]. rewrite IH. reflexivity. Qed.
 
